@@ -16,7 +16,7 @@ CLAUSES = {
             "found:createobject", "found:pe"},
     "C12": {"url.parts", "url.part.span", "url.part.value", "url.part.label", "win.value", "win.label", "win.type", "win.parts"},
 }
-PRE = [b"", b" ", b"x = ", b"see ", b"\x00\x01 ", b"1234567 ", b"abc;\n", b", ", b"[", b"<", b"{ "]
+PRE = [b"", b" ", b"x = ", b"see ", b"\x00\x01 ", b"1234567 ", b"abc;\n", b", ", b"[", b"<", b"{ ", b"rem CreateObject( never closed "]
 SUF = [b"", b" ", b" and more", b"\n", b", next", b" ;"]
 
 
@@ -69,6 +69,7 @@ def context_urls() -> list[bytes]:
     return out
 
 
+HIGH_ESCAPES = [b"http://a.example.com/%c3%a9/%fc?q=%e2%82%ac#%ff", b"see ('https://evil-site.net/caf%C3%a9%7e') now", b"ftp://1.2.3.4/%80%7F%ab"]
 HOST_SHAPES = [b"192.168.01.10", b"010.1.1.1", b"1.2.3.04", b"0x7f.0.0.1", b"example.com", b"info", b"com", b".com", b"docs", b"museum", b"example.com.", b"a..com", b"example.invalidtld", b"localhost", b"a.b",
                b"-.com", b"x.co", b"name.Info", b"EXAMPLE.COM", b"1.2.3", b"999.1.1.1", b"1.2.3.4", b"sub.evil-site.net", b"xn--p1ai", b"a_b.com"]
 
@@ -93,7 +94,7 @@ def url_lattice(rng: random.Random, tier: str) -> list[bytes]:
     if tier == "quick":
         paths = paths[:12] + rng.sample(paths[12:], 60)
     queries = [b"", b"?", b"?q", b"?q=%41%2f&x=%zz"]
-    frags = [b"", b"#", b"#f", b"#%46rag"]
+    frags = [b"", b"#", b"#f", b"#%46rag", b"##s?x", b"#a?b#c"]
     out = []
     combos = list(itertools.product(schemes, users, hosts, ports, queries, frags))
     rng.shuffle(combos)
@@ -331,7 +332,7 @@ def run(prop: str, tier: str) -> int:
 
     inputs = list(drivers.repo_literals()) + list(net_soup(rng, 800 if tier == "quick" else 15000))
     inputs += list(drivers.token_soup(rng, 200 if tier == "quick" else 3000))
-    inputs += context_urls() + host_shapes()
+    inputs += context_urls() + host_shapes() + HIGH_ESCAPES
     for t in tld_added:        # entries the pinned table does not have: whatever is reported under them is judged against the pinned table
         inputs += [b"see portal.members." + t.lower() + b" now", b"http://www.example." + t.lower() + b"/x", b"mail admin@corp-mail." + t.lower() + b" now"]
     if prop == "C11":
@@ -346,6 +347,10 @@ def run(prop: str, tier: str) -> int:
             if "pre_override" in inst:
                 pre = bytes(inst.pop("pre_override"))
             blob = bytes(inst["blob"])
+            if inst["what"] == "url" and pre and blob[pre[-1]:pre[-1] + 1] == b"0" and any(c < 32 or c > 126 for c in pre[-10:]):
+                # the documented Pascal-string rule: a non-printable byte n before the URL whose n-th character is '0' is read as a
+                # length byte and cuts the URL there - such a prefix is not a neutral delimiter for this instance
+                inst["neutral"] = False
             if inst["what"] == "pe":
                 suf = bytes(rng.randrange(256) for _ in range(inst.pop("trailing", 0)))
                 pre = rng.choice([b"", b"junk \x00\x01", b"MZ not a pe "])
